@@ -172,7 +172,18 @@ func (m *Machine) deadlockEnd() interface{} {
 	msg := "all goroutines are blocked:"
 	for _, g := range m.gs {
 		if !g.done {
-			msg += fmt.Sprintf(" g%d[%s]", g.id, g.what)
+			where := ""
+			fr := g.frame
+			if g == m.cur {
+				fr = m.curFrame
+			}
+			for f := fr; f != nil; f = f.caller {
+				if f.fn.Pkg != nil && strings.HasPrefix(f.fn.Pkg.Pkg.Path(), m.P.RepoPrefix) {
+					where = " in " + f.fn.Name()
+					break
+				}
+			}
+			msg += fmt.Sprintf(" g%d[%s%s]", g.id, g.what, where)
 		}
 	}
 	func() {
@@ -352,6 +363,9 @@ func (m *Machine) fireEvent() bool {
 	}
 	for _, t := range m.timers {
 		if !t.fired && !t.stopped {
+			if m.horizonNs > 0 && t.d != nil && t.d.IsConst() && int64(t.d.C) > m.horizonNs {
+				continue // beyond the time horizon of the scenario
+			}
 			m.fireTimer(t)
 			return true
 		}
